@@ -89,10 +89,10 @@ Lemma link_sk_writeheader : C02_Gen.sk_writeheader =
    "tw.mu.Lock"; "defer:tw.mu.Unlock"; "tw.writeHeaderLocked"]%string.
 Proof. reflexivity. Qed.
 
-(* writeHeaderLocked: code check first, then the switch *)
+(* writeHeaderLocked: code check first, then the switch (timedOut / superfluous / informational: return) *)
 Lemma link_sk_whl : C02_Gen.sk_whl =
   [
-   "checkWriteHeaderCode"; "return"; "relevantCaller"; "path.Base"; "internal.Errorf"]%string.
+   "checkWriteHeaderCode"; "return"; "relevantCaller"; "path.Base"; "internal.Errorf"; "return"]%string.
 Proof. reflexivity. Qed.
 
 (* RecoverHandler: deferred func returns if `finished`, else recover + 500; then next *)
